@@ -103,6 +103,11 @@ func init() {
 		Decides:    "the bookkeeping conditions under which a token's line/column can agree with its byte offset: only the position primitives of the two lexers write the cursor and the line/column counters; every rewind undoes characters that are provably one byte wide (or rewinds to a recorded byte offset with the matching column count) and never crosses a line increment; and the colouring functions emit nothing but slices of their input between recorded offsets, wrapped in colour codes.",
 		NotCovered: "the partition property itself: that the spans the scanners produce are ordered, non-overlapping and cover what they should is a property of a 2500-line state machine over input bytes; skipByte callers (assumed to skip ASCII bytes).",
 	}
+	props["C19"] = &PropSpec{
+		Rules:      []string{"esc/rw"},
+		Decides:    "agreement of the escape tables that are written twice: for String, Char and Symbol inspect and the lexer scanners that read their output, every single-letter escape written for a character is decoded to that character, every character the scanner treats specially when unescaped (delimiter, backslash, interpolation openers) is escaped by the writer, and `\\xNN`, which the scanner decodes to one byte, is written only for values below 0x80 or for raw bytes of the string.",
+		NotCovered: "numeric formatting (float %g round trip, big floats, literal bases and suffixes), String#to_int, regex inspect, and nesting of collections: these depend on numeric values, not on table shape.",
+	}
 	props["C27"] = &PropSpec{
 		Rules:      []string{"cover/deepcopy", "repl/snapshot-restore", "cache/invalidate"},
 		Decides:    "the rollback half of the property (a rejected input leaves no trace) at the level of record fields: every DeepCopyEnv method of the type environment writes every field of the copy it returns (or the field is read nowhere, or it is rebuilt by the registerAsChild protocol), and the checker's REPL entry point stores back every snapshot it took, on every path, when the input is rejected, and drops the memoised copies of the scope stacks it replaces.",
